@@ -13,7 +13,7 @@ from contextlib import asynccontextmanager
 from datetime import datetime, timezone
 from typing import Any, AsyncGenerator, Generic, Literal
 
-from pydantic import BaseModel
+from pydantic import BaseModel, ValidationError
 from typing_extensions import TypeVar
 from workflows.context.serializers import BaseSerializer, JsonSerializer
 from workflows.context.state_store import (
@@ -213,12 +213,19 @@ class SqliteStateStore(Generic[MODEL_T]):
             )
             row = cursor.fetchone()
 
+            current_state: Any
             if row is None:
-                self._save_state(state, conn)
-                conn.commit()
-                return
-
-            current_state = self._deserialize_state(row[0])
+                # No row yet: the current state is the type's default, exactly as
+                # _load_state() would create it.  Only a state type that cannot be
+                # built from defaults is seeded directly with the given state.
+                try:
+                    current_state = self._create_default_state()
+                except ValidationError:
+                    self._save_state(state, conn)
+                    conn.commit()
+                    return
+            else:
+                current_state = self._deserialize_state(row[0])
             merged = merge_state(current_state, state)
             self._save_state(merged, conn)  # type: ignore[arg-type]
             conn.commit()
